@@ -455,6 +455,7 @@ type closer struct {
 	ch     chan struct{}
 	closed bool
 	sizes  []uint64
+	unlink string // a path removed at the moment of the close (the caller abandons the merge and its directory)
 }
 
 func (cl *closer) ReportBytesWritten(n uint64) {
@@ -463,6 +464,9 @@ func (cl *closer) ReportBytesWritten(n uint64) {
 	if !cl.closed && cl.ch != nil && cl.sum >= cl.k {
 		close(cl.ch)
 		cl.closed = true
+		if cl.unlink != "" {
+			os.Remove(cl.unlink)
+		}
 	}
 }
 
@@ -471,10 +475,26 @@ func checkC18(c *ctx) {
 	c.Assumptions = append(c.Assumptions, "the poll points themselves are not observable without editing the merge; the model (Cancel.v) quantifies over every placement of polls and of the close")
 	savedBuf := zap.DefaultFileMergerBufferSize
 	defer func() { zap.DefaultFileMergerBufferSize = savedBuf }()
-	nIn := c.n(5, 80)
+	wideSets := c.n(12, 60)
+	nIn := c.n(5, 80) + wideSets
 	for i := 0; i < nIn; i++ {
 		pool := genMergeInputs(c, 2+c.R.Intn(2), true)
 		mc := genMergeCase(c, pool)
+		tailN, tailStep := 12, 1
+		wide := i < wideSets
+		if wide {
+			// a merge with about 300 fields: more than 1024 writes, about two thousand of them in the
+			// fields section at the end (whose writes go unchecked); closed at every 37th of the last
+			// 2600 write boundaries; the sets differ in their number of writes (a poll every so
+			// many writes lands elsewhere in each)
+			e1, err := newBuilt(c, wideBatch(300-i%5, "x", true), 1026, false)
+			must(err)
+			e2, err := newBuilt(c, wideBatch(40+i, "y", i%2 == 0), 1026, true)
+			must(err)
+			mc = &mergeCase{ins: []*segEnt{e1, e2}, drops: [][]uint64{{1}, nil}, nilBM: []bool{false, true}, mode: 1026}
+			tailN, tailStep = 2600, 37
+			c.Count("wide_input_sets")
+		}
 		if i%4 == 3 {
 			// every document of every input deleted: the merge has nothing to copy but must
 			// still honour the channel
@@ -517,7 +537,9 @@ func checkC18(c *ctx) {
 		}
 		tried := map[uint64]bool{}
 		runNo := 0
+		light, lightN := wide, 0
 		chanCap := 0
+		unlinkOnClose := false
 		var asyncDelay time.Duration = -1 // >= 0: a second goroutine closes the channel after this delay
 		run := func(k uint64, pre bool) string {
 			ch := make(chan struct{})
@@ -539,6 +561,9 @@ func checkC18(c *ctx) {
 			}
 			path := zh.TmpPath("c18")
 			defer os.Remove(path)
+			if unlinkOnClose {
+				cl.unlink = path
+			}
 			// every other attempt: something already sits at the output path (a name reserved
 			// beforehand, the product of an earlier attempt)
 			runNo++
@@ -573,6 +598,10 @@ func checkC18(c *ctx) {
 				if pre {
 					return "the channel was closed before the call but Merge reported success"
 				}
+				if unlinkOnClose {
+					c.Count("outcome_completed")
+					return "" // the harness itself removed the file
+				}
 				got, err := os.ReadFile(path)
 				if err != nil {
 					return "Merge reported success but there is no file"
@@ -582,7 +611,37 @@ func checkC18(c *ctx) {
 						return fmt.Sprintf("Merge reported success with a wrong doc-number map for input %d", j)
 					}
 				}
-				if p := parseMergedAgainst(c, got, mspec, allParts); p != "" {
+				lightN++
+				if light && lightN%400 != 0 {
+					// the wide input set: thousands of completed merges; read back through the
+					// segment API (the extracted parser takes a third of a second on 300 fields)
+					bad := ""
+					func() {
+						defer func() {
+							if r := recover(); r != nil {
+								bad = fmt.Sprintf("opening / reading it panics: %v", r)
+							}
+						}()
+						sg, err := zh.Plugin.Open(path)
+						if err != nil {
+							bad = "it cannot be opened: " + err.Error()
+							return
+						}
+						defer sg.Close()
+						cont, err := zh.Dump(sg)
+						if err != nil {
+							bad = "it cannot be read: " + err.Error()
+							return
+						}
+						cont.NormalizeMerged()
+						if d := partsDiffer(cont.Sx(), mspec, allParts); len(d) > 0 {
+							bad = "it differs from the merged content in " + fmt.Sprint(d)
+						}
+					}()
+					if bad != "" {
+						return "Merge reported success for a file that is not the merged content: " + bad
+					}
+				} else if p := parseMergedAgainst(c, got, mspec, allParts); p != "" {
 					return "Merge reported success for a file that does not decode to the merged content: " + p
 				}
 				c.Count("outcome_completed")
@@ -607,6 +666,9 @@ func checkC18(c *ctx) {
 		if c.Quick && len(bounds) > 400 {
 			stride = len(bounds)/400 + 1
 		}
+		if wide {
+			stride = len(bounds)/25 + 1
+		}
 		for bi := 0; bi < len(bounds); bi += stride {
 			k := bounds[bi]
 			if tried[k] {
@@ -622,7 +684,7 @@ func checkC18(c *ctx) {
 			}
 		}
 		// the last boundaries (fields index, footer) always
-		for bi := len(bounds) - 12; bi < len(bounds); bi++ {
+		for bi := len(bounds) - tailN; bi < len(bounds); bi += tailStep {
 			if bi >= 0 && !tried[bounds[bi]] {
 				tried[bounds[bi]] = true
 				c.Count("close_points")
@@ -632,8 +694,22 @@ func checkC18(c *ctx) {
 				}
 			}
 		}
+		// the caller gives up on the merge AND removes the output (its directory) at that moment:
+		// the outcome is still the closed error, not some other one
+		unlinkOnClose = true
+		for bi := 0; bi < len(bounds); bi += len(bounds)/40 + 1 {
+			c.Count("close_points_with_the_output_unlinked")
+			if bad := run(bounds[bi], false); bad != "" {
+				c.Violation(fmt.Sprintf("C18 close channel closed, and the output path unlinked by the caller at the same moment, when %d of %d bytes had been written\n%s\n%s", bounds[bi], sum, bad, clip(mc.describe())), false)
+				return
+			}
+		}
+		unlinkOnClose = false
 		// the channel closed by another goroutine at an arbitrary moment (also between two writes)
 		trials := c.n(60, 250)
+		if wide {
+			trials = 10
+		}
 		if c.proofBroken("tie_poll_discipline") {
 			trials = 3000
 		}
